@@ -16,6 +16,21 @@ static inline vit_pi32_vvec_i32* vit_pi32_vvec_i32_op_inc(vit_pi32_vvec_i32* it)
 static vvec_i32* g_vec;
 static inline int* vit_pi32_vvec_i32_op_star___k(const vit_pi32_vvec_i32* it) { __CPROVER_assert(it->idx < g_vec->size, "MODEL: only a valid (non-end) iterator is dereferenced"); g_deref_idx = it->idx; return &g_dummy; }
 static inline int* vvec_i32_emplace_back(vvec_i32* v) { g_deref_idx = v->size; v->size++; return &g_dummy; }
+/* std::vector<bool>: size + the value of ONE arbitrary witness element g_bw (all others are not tracked) */
+typedef struct { size_t size; } vvec_b;
+typedef struct { size_t idx; } std_Bit_iterator_base;
+typedef struct { std_Bit_iterator_base __base_Bit_iterator_base; } std_Bit_iterator;
+typedef struct { size_t idx; } std_Bit_reference;
+static size_t g_bw; static _Bool g_elem_w; static vvec_b* g_bvec;
+static inline std_Bit_iterator vvec_b_begin(vvec_b* v) { std_Bit_iterator i; i.__base_Bit_iterator_base.idx = 0; return i; }
+static inline std_Bit_iterator vvec_b_end(vvec_b* v) { std_Bit_iterator i; i.__base_Bit_iterator_base.idx = v->size; return i; }
+static inline _Bool m_std_operator_op_ne__rkstd_Bit_iterator_base_rkstd_Bit_iterator_base(const std_Bit_iterator_base* a, const std_Bit_iterator_base* b) { return a->idx != b->idx; }
+static inline std_Bit_iterator* std_Bit_iterator_op_inc(std_Bit_iterator* i) { i->__base_Bit_iterator_base.idx++; return i; }
+static inline std_Bit_reference std_Bit_iterator_op_star___k(const std_Bit_iterator* i) { __CPROVER_assert(i->__base_Bit_iterator_base.idx < g_bvec->size, "MODEL: only a valid (non-end) iterator is dereferenced"); std_Bit_reference r; r.idx = i->__base_Bit_iterator_base.idx; return r; }
+static inline std_Bit_reference* std_Bit_reference_op_assign__b(std_Bit_reference* r, _Bool v) { if (r->idx == g_bw) g_elem_w = v; return r; }
+static inline _Bool std_Bit_reference_conv_b___k(const std_Bit_reference* r) { return r->idx == g_bw ? g_elem_w : nondet_bool(); }
+static inline void vvec_b_push_back__b(vvec_b* v, _Bool x) { if (v->size == g_bw) g_elem_w = x; v->size++; }
+static inline void vvec_b_resize__u64_b(vvec_b* v, unsigned long n, _Bool x) { if (n > v->size && g_bw >= v->size && g_bw < n) g_elem_w = x; v->size = n; }
 /* std::optional<int> / std::unique_ptr<int> models */
 typedef struct { char __e; } std_nullopt_t; static const std_nullopt_t m_std_nullopt = {0};
 typedef struct { _Bool has; int v; } vopt_i32;
@@ -34,8 +49,9 @@ static inline int* std_unique_ptr_i32_std_default_delete_i32_op_star___k(const U
 static inline void std_unique_ptr_i32_std_default_delete_i32_reset__pi32(UP* u, int* np) { if (u->p) g_frees++; u->p = np; }
 #include "gen.h"
 /* abstract load scope: N items; IsEnd <=> all N were requested; each SerializeValue raises or delivers the next item */
+static _Bool g_elem_w_after_resize; static size_t g_size_after_resize; static int g_vb_mode; static size_t g_b_loaded, g_b_n;
 unsigned long AbsLoadArrayScope_GetEstimatedSize___k(const struct AbsLoadArrayScope* s) { return g_estimate; }
-_Bool AbsLoadArrayScope_IsEnd___k(const struct AbsLoadArrayScope* s) { return g_loaded == g_n; }
+_Bool AbsLoadArrayScope_IsEnd___k(const struct AbsLoadArrayScope* s) { return g_vb_mode ? g_b_loaded == g_b_n : g_loaded == g_n; }
 _Bool AbsLoadArrayScope_SerializeValue__ri32(struct AbsLoadArrayScope* s, int* v) {
   __CPROVER_assert(g_loaded < g_n, "C18: no item is requested from the archive beyond its end");
   if (nondet_bool()) { __verif_exc = EXC_SerializationException; return 0; }
@@ -50,8 +66,26 @@ _Bool AbsLoadArrayScope_SerializeValue__ri32(struct AbsLoadArrayScope* s, int* v
   __CPROVER_assigns(loadedItems, g_loaded, g_w_slot, g_w_done, g_deref_idx, cont->size, __verif_exc, __verif_exc_code) \
   __CPROVER_loop_invariant(__verif_exc == 0 && loadedItems == g_loaded && g_loaded <= g_n && (g_loaded == g_n || cont->size == loadedItems) && (g_w >= g_loaded || (g_w_done && g_w_slot == g_w))) \
   __CPROVER_decreases(g_n - g_loaded)
+/* vector<bool>: items of the archive are bools; item k is loaded (delivered), reported as not loaded (target untouched) or the load raises */
+static _Bool g_item_w, g_w_item_loaded;
+_Bool AbsLoadArrayScope_SerializeValue__rb(struct AbsLoadArrayScope* s, _Bool* v) {
+  __CPROVER_assert(g_b_loaded < g_b_n, "C18: no item is requested from the archive beyond its end");
+  if (nondet_bool()) { __verif_exc = EXC_SerializationException; return 0; }
+  size_t k = g_b_loaded++; if (nondet_bool()) return 0;                 /* null / skipped: not loaded, target not written */
+  _Bool item = nondet_bool(); *v = item; if (k == g_bw) { g_item_w = item; g_w_item_loaded = 1; } return 1; }
+#define FVB SerializeArray_AbsLoadArrayScope_valloc_b__rAbsLoadArrayScope_rvvec_b
+#define VERIF_LOOP_SerializeArray_AbsLoadArrayScope_valloc_b__rAbsLoadArrayScope_rvvec_b_1 \
+  __CPROVER_assigns(it.__base_Bit_iterator_base.idx, loadedItems, g_b_loaded, g_elem_w, g_item_w, g_w_item_loaded, __verif_exc, __verif_exc_code VERIF_TMPS_SerializeArray_AbsLoadArrayScope_valloc_b__rAbsLoadArrayScope_rvvec_b) \
+  __CPROVER_loop_invariant(__verif_exc == 0 && loadedItems == g_b_loaded && g_b_loaded <= g_b_n && it.__base_Bit_iterator_base.idx == loadedItems && loadedItems <= cont->size && cont->size == g_size_after_resize && cont == g_bvec && g_vb_mode == 1 && \
+     (g_bw >= loadedItems ? (!g_w_item_loaded && g_elem_w == g_elem_w_after_resize) : (g_w_item_loaded ? g_elem_w == g_item_w : g_elem_w == g_elem_w_after_resize))) \
+  __CPROVER_decreases(cont->size - it.__base_Bit_iterator_base.idx)
+#define VERIF_LOOP_SerializeArray_AbsLoadArrayScope_valloc_b__rAbsLoadArrayScope_rvvec_b_2 \
+  __CPROVER_assigns(loadedItems, g_b_loaded, g_elem_w, g_item_w, g_w_item_loaded, cont->size, __verif_exc, __verif_exc_code) \
+  __CPROVER_loop_invariant(__verif_exc == 0 && loadedItems == g_b_loaded && g_b_loaded <= g_b_n && cont->size >= loadedItems && (g_b_loaded == g_b_n || (cont->size == loadedItems && loadedItems >= g_size_after_resize)) && cont == g_bvec && \
+     (g_bw >= loadedItems ? (!g_w_item_loaded && (g_bw >= cont->size || g_elem_w == g_elem_w_after_resize)) : (g_w_item_loaded ? g_elem_w == g_item_w : g_elem_w == (g_bw < g_size_after_resize ? g_elem_w_after_resize : 0)))) \
+  __CPROVER_decreases(g_b_n - g_b_loaded)
 #include "gen.c"
-void h_load_vector(void) { struct AbsLoadArrayScope scope; vvec_i32 vec; g_vec = &vec; vec.size = nondet_size_t(); vec.resizes = 0; __CPROVER_assume(vec.size <= ((size_t)1 << 50));   /* any prior content */
+void h_load_vector(void) { g_vb_mode = 0; struct AbsLoadArrayScope scope; vvec_i32 vec; g_vec = &vec; vec.size = nondet_size_t(); vec.resizes = 0; __CPROVER_assume(vec.size <= ((size_t)1 << 50));   /* any prior content */
   g_n = nondet_size_t(); __CPROVER_assume(g_n <= ((size_t)1 << 50)); g_estimate = nondet_size_t(); __CPROVER_assume(g_estimate <= ((size_t)1 << 50));   /* the estimate may be 0, smaller or larger than N */
   g_loaded = 0; g_w = nondet_size_t(); g_w_done = 0; g_w_slot = 0; __verif_exc = 0;
   verif_inst_load_vector__rAbsLoadArrayScope_rvvec_i32(&scope, &vec);
@@ -60,18 +94,28 @@ void h_load_vector(void) { struct AbsLoadArrayScope scope; vvec_i32 vec; g_vec =
   VERIF_CANARY(); }
 /* optional / unique_ptr: one value is requested; it loads (ret true, value written), is reported as not loaded (null / skipped), or the load raises */
 static int g_prior;
-void h_load_optional(void) { struct AbsLoadArrayScope scope; vopt_i32 o; o.has = nondet_bool(); o.v = nondet_int(); g_n = 1; g_loaded = 0; g_w = 0; g_w_done = 0; __verif_exc = 0; g_deref_idx = 0; vvec_i32 dummy; dummy.size = 1; g_vec = &dummy;
+void h_load_optional(void) { g_vb_mode = 0; struct AbsLoadArrayScope scope; vopt_i32 o; o.has = nondet_bool(); o.v = nondet_int(); g_n = 1; g_loaded = 0; g_w = 0; g_w_done = 0; __verif_exc = 0; g_deref_idx = 0; vvec_i32 dummy; dummy.size = 1; g_vec = &dummy;
   _Bool ret = verif_inst_load_optional__rAbsLoadArrayScope_rvopt_i32(&scope, &o);
   VERIF_ASSERT("C18", __verif_exc != 0 || (g_loaded == 1 && ret == o.has), "whatever the optional held before, after a load it is engaged iff the value was loaded (a null or skipped value resets it): the same result as loading into a fresh optional");
   VERIF_ASSERT("C18,C20", __verif_exc == 0 || __verif_exc == EXC_SerializationException, "only the archive's own exception leaves the loader (no bad_optional_access)");
   VERIF_CANARY(); }
-void h_load_unique(void) { struct AbsLoadArrayScope scope; UP u; static int prior_cell; u.p = nondet_bool() ? &prior_cell : 0; _Bool had = u.p != 0; g_allocs = 0; g_frees = 0; g_n = 1; g_loaded = 0; g_w = 0; g_w_done = 0; __verif_exc = 0; vvec_i32 dummy; dummy.size = 1; g_vec = &dummy;
+void h_load_unique(void) { g_vb_mode = 0; struct AbsLoadArrayScope scope; UP u; static int prior_cell; u.p = nondet_bool() ? &prior_cell : 0; _Bool had = u.p != 0; g_allocs = 0; g_frees = 0; g_n = 1; g_loaded = 0; g_w = 0; g_w_done = 0; __verif_exc = 0; vvec_i32 dummy; dummy.size = 1; g_vec = &dummy;
   _Bool ret = verif_inst_load_unique__rAbsLoadArrayScope_rstd_unique_ptr_i32_std_default_delete_i32(&scope, &u);
   VERIF_ASSERT("C18", __verif_exc != 0 || (g_loaded == 1 && ret == (u.p != 0)), "whatever the pointer held before, after a load it owns an object iff the value was loaded (a null or skipped value resets it)");
   VERIF_ASSERT("C18,C20", __verif_exc != 0 || (g_allocs == (had ? 0u : 1u) && g_frees == (ret ? 0u : 1u)), "an object is allocated only when none was there and released exactly when the value was not loaded: nothing leaks, nothing is released twice");
   VERIF_CANARY(); }
+void h_load_vector_bool(void) { struct AbsLoadArrayScope scope; vvec_b vec; g_bvec = &vec; vec.size = nondet_size_t(); __CPROVER_assume(vec.size <= ((size_t)1 << 50)); size_t size0 = vec.size;
+  g_b_n = nondet_size_t(); __CPROVER_assume(g_b_n <= ((size_t)1 << 50)); g_estimate = nondet_size_t(); __CPROVER_assume(g_estimate <= ((size_t)1 << 50)); g_bw = nondet_size_t(); g_elem_w = nondet_bool(); _Bool prior_w = g_elem_w;
+  g_b_loaded = 0; g_w_item_loaded = 0; g_vb_mode = 1; __verif_exc = 0;
+  /* what element w holds once the container has been resized to the estimate: its prior value if it existed, false if it was created */
+  g_size_after_resize = g_estimate != 0 ? g_estimate : size0; g_elem_w_after_resize = g_bw < size0 && g_bw < g_size_after_resize ? prior_w : 0; if (!(g_bw < g_size_after_resize)) g_elem_w = g_elem_w_after_resize = 0;
+  verif_inst_load_vector_bool__rAbsLoadArrayScope_rvvec_b(&scope, &vec);
+  VERIF_ASSERT("C18", __verif_exc != 0 || (vec.size == g_b_n && g_b_loaded == g_b_n), "after a successful load the vector<bool> has exactly as many elements as the archive array, whatever its prior size and the size estimate");
+  VERIF_ASSERT("C18,C05", __verif_exc != 0 || g_bw >= g_b_n || (g_w_item_loaded ? g_elem_w == g_item_w : g_elem_w == (g_bw < g_size_after_resize ? g_elem_w_after_resize : 0)), "element w holds item w of the archive if that item was loaded; an item that was NOT loaded (null / skipped) leaves its element at its previous value (false for a new element), not at a neighbour's value");
+  VERIF_CANARY(); }
 /*@jobs
 job entry=h_load_vector props=C18,C02 mode=direct loops=1 unwind=2
+job entry=h_load_vector_bool props=C18,C05,C02 mode=direct loops=1 unwind=2
 job entry=h_load_optional props=C18,C20,C02 mode=direct unwind=2
 job entry=h_load_unique props=C18,C20,C02 mode=direct unwind=2
 @*/
